@@ -8,7 +8,7 @@ from vlib import hexd, frac, frac_of_hex, unhex
 EPS = 2.0 ** -52
 
 
-STYLES = ["dyadic", "full", "tinyscale", "illcond", "rankdef", "scalar", "tall", "identityH", "diagonal", "zeroinnov", "symH", "hugescale", "mixedscale", "full"]
+STYLES = ["dyadic", "full", "tinyscale", "illcond", "rankdef", "scalar", "tall", "identityH", "diagonal", "zeroinnov", "symH", "hugescale", "mixedscale", "neardup", "full"]
 
 
 def scale_of(r, style, which):
@@ -23,7 +23,7 @@ def scale_of(r, style, which):
 
 
 def gen_model(g, tier, idx):
-    """dimensions + measurement model (H, R) shared by the calls of one sequence"""
+    """dimensions + first measurement model (H, R) of one sequence"""
     r = g.r
     big = 6 if tier == "quick" else 8
     style = STYLES[idx % len(STYLES)] if idx < 3 * len(STYLES) else r.choice(STYLES)
@@ -42,12 +42,22 @@ def gen_model(g, tier, idx):
         n = m = r.randint(1, big)
     else:
         n, m = r.randint(1, big), r.randint(1, big)
+    H, R = gen_HR(g, style, n, m)
+    return style, n, m, H, R
+
+
+def gen_HR(g, style, n, m):
+    """a measurement model of the given shape (the model of an object may vary in time)"""
+    r = g.r
     if style == "dyadic":
         R = g.spd_dyadic(m)
         H = [[g.dyadic(-2, 2, 3) for _ in range(n)] for _ in range(m)]
     else:
         cond = 10 ** r.uniform(4, 6) if style == "illcond" else None
-        R = g.spd(m, cond=cond, scale=scale_of(r, style, "R"))
+        sc = scale_of(r, style, "R")
+        if style == "neardup":
+            sc = 10 ** r.uniform(-6, -3)           # a precise sensor: the weak directions of P matter
+        R = g.spd(m, cond=cond, scale=sc)
         H = g.mat(m, n)
     if style == "identityH":
         H = [[1.0 if i == j else 0.0 for j in range(n)] for i in range(m)]
@@ -67,7 +77,7 @@ def gen_model(g, tier, idx):
         elif mode == "rank1":
             u, v = g.vec(m, -1, 1), g.vec(n, -1, 1)
             H = [[u[i] * v[j] for j in range(n)] for i in range(m)]
-    return style, n, m, H, R
+    return H, R
 
 
 def gen_call(g, style, n, m, H):
@@ -82,6 +92,18 @@ def gen_call(g, style, n, m, H):
         Ps = [g.spd(n, cond=cond, scale=scale_of(r, style, "P")) for _ in range(k)]
         means = [g.vec(n) for _ in range(k)]
         y = g.vec(m)
+    if style == "neardup":
+        # consecutive components whose covariances are (nearly) equal in norm but differ along the
+        # weakest eigen-direction; some exactly equal (different means only)
+        k = r.choice([2, 3, 4])
+        U, lam = g.spd_parts(n, 10 ** r.uniform(3, 6), 10 ** r.uniform(-1, 1))
+        Ps = []
+        for c in range(k):
+            t = 0.0 if c == 0 else r.choice([0.0, 0.5, 1.0, 3.0, 1e-3])
+            l2 = list(lam)
+            l2[-1] = lam[-1] * (1.0 + t)
+            Ps.append(g.assemble(U, l2))
+        means = [g.vec(n) for _ in range(k)]
     if style == "diagonal":
         Ps = [[[(P[i][j] if i == j else 0.0) for j in range(n)] for i in range(n)] for P in Ps]
     if style == "zeroinnov":
@@ -96,17 +118,29 @@ def gen_call(g, style, n, m, H):
 
 
 def gen_case(g, tier, idx):
-    """one KFCorrection object, 1..3 correct() calls -> (harness line, [single-call kfc lines], meta)"""
+    """one KFCorrection object over a (possibly time-varying) measurement model, 1..3 correct() calls,
+    the likelihood queried 1..3 times after each -> (harness line, [single-call kfc lines], meta)"""
+    r = g.r
     style, n, m, H, R = gen_model(g, tier, idx)
-    ncalls = g.r.choice([1, 1, 2, 3])
-    head = vlib.fmt_mat_cm(H) + vlib.fmt_mat_cm(R)
-    seq = ["kfcs", str(n), str(m)] + head + [str(ncalls)]
+    ncalls = r.choice([1, 1, 2, 3])
+    seq = ["kfcv", str(n), str(m), str(ncalls)]
     singles = []
-    for _ in range(ncalls):
+    varied = 0
+    for c in range(ncalls):
+        if c > 0 and r.random() < 0.6:
+            H2, R2 = gen_HR(g, style, n, m)        # same shape, new content
+            which = r.choice(["H", "R", "both"])
+            if which in ("H", "both"):
+                H = H2
+            if which in ("R", "both"):
+                R = R2
+            varied += 1
         k, toks = gen_call(g, style, n, m, H)
-        seq += [str(k)] + toks
+        nlik = r.choice([1, 1, 2, 3])
+        head = vlib.fmt_mat_cm(H) + vlib.fmt_mat_cm(R)
+        seq += head + toks[:m] + [str(nlik), str(k)] + toks[m:]
         singles.append(" ".join(["kfc", str(n), str(m), str(k)] + head + toks))
-    return " ".join(seq), singles, {"style": style, "n": n, "m": m, "calls": ncalls}
+    return " ".join(seq), singles, {"style": style, "n": n, "m": m, "calls": ncalls, "model_changes": varied}
 
 
 def split_seq_output(hout, ncalls):
@@ -259,17 +293,27 @@ def check_case(ctx, line, meta, hout, dout, iout, stats):
 
 
 def replay_case(path):
-    """re-run the input recorded in a replay file (a kfcs sequence line or a single kfc line)"""
+    """re-run the input recorded in a replay file (a kfcv / kfcs sequence line or a single kfc line)"""
     import json
     line = json.load(open(path))["replay"]["input_line"]
     t = line.split()
     if t[0] == "kfc":
         return (line, [line], {"style": "replay", "calls": 1})
     n, m = int(t[1]), int(t[2])
+    singles = []
+    if t[0] == "kfcv":
+        ncalls = int(t[3]); p = 4
+        for _ in range(ncalls):
+            head = t[p:p + m * n + m * m]; p += m * n + m * m
+            y = t[p:p + m]; p += m
+            p += 1                                   # nlik
+            k = int(t[p]); p += 1
+            ln = n * k + n * n * k + k
+            singles.append(" ".join(["kfc", str(n), str(m), str(k)] + head + y + t[p:p + ln])); p += ln
+        return (line, singles, {"style": "replay", "n": n, "m": m, "calls": ncalls})
     p = 3
     head = t[p:p + m * n + m * m]; p += m * n + m * m
     ncalls = int(t[p]); p += 1
-    singles = []
     for _ in range(ncalls):
         k = int(t[p]); p += 1
         ln = m + n * k + n * n * k + k
@@ -305,8 +349,10 @@ def run(ctx):
     for (hline, slines, meta), h in zip(cases, hout):
         hist[meta.get("style")] = hist.get(meta.get("style"), 0) + 1
         dims.add((meta.get("n"), meta.get("m")))
-        if hline.startswith("kfcs"):
+        if hline.startswith("kfcs") or hline.startswith("kfcv"):
             pre, outs = split_seq_output(h, len(slines))
+            if "likdiffer" in h.split():
+                prop_bad.append(("likelihood-not-repeatable", "repeated getLikelihood() queries after one correction returned different values", hline, h))
             if pre is not None and pre != "noprelik":
                 stats["note_likelihood_before_correction"] = stats.get("note_likelihood_before_correction", 0) + 1   # outside C01: recorded only
             if len(outs) != len(slines):
@@ -328,7 +374,7 @@ def run(ctx):
     nontrivial = sum(1 for sl in distinct if int(sl.split()[1]) * int(sl.split()[2]) > 1 or int(sl.split()[3]) > 1)
     ctx.coverage.update({
         "evaluations": ncalls_total, "distinct_nontrivial": nontrivial,
-        "rule": "KFCorrection objects used for 1..3 successive correct() calls each (new measurement, new component count per call); the (n,m) grid 1..6 x 1..6 "
+        "rule": "KFCorrection objects over a time-varying measurement model (H, R of the same shape may change between calls) used for 1..3 successive correct() calls each (new measurement, new component count per call), likelihood queried 1..3 times per call; near-duplicate consecutive components; the (n,m) grid 1..6 x 1..6 "
                 "first, then random n,m up to %d; k in {1,2,3,4,6}; SPD with prescribed spectrum, cond<=1e6; H of any rank, identity/diagonal/symmetric/zero H, "
                 "zero innovation; non-trivial = more than one scalar dimension or more than one component; distinct = distinct single-call inputs" % (6 if ctx.quick() else 8),
         "samples": [cases[0][0][:400], cases[-1][0][:400]],
